@@ -4,6 +4,7 @@ import (
 	"bytes"
 	"encoding/binary"
 	"fmt"
+	"math/rand"
 	"sort"
 	"strings"
 
@@ -48,6 +49,8 @@ type world struct {
 	netID   uint64
 	valPub  map[string][]byte // scheme -> BLS public key stored in the fixture validator record
 	byAddr  map[string]string // address -> label (for samples)
+	j       uint64            // seed-dependent offset of amounts and timestamps
+	rng     *rand.Rand
 }
 
 func orderID(scheme string) []byte { return seedOf("order-" + scheme)[:20] }
@@ -55,8 +58,8 @@ func recvAddr(scheme string) []byte {
 	return seedOf("seller-receive-" + scheme)[:20]
 }
 
-func newWorld() *world {
-	w := &world{P: map[string]map[string]*principal{}, fees: map[string]uint64{}, valPub: map[string][]byte{}, byAddr: map[string]string{}}
+func newWorld(rng *rand.Rand) *world {
+	w := &world{rng: rng, j: uint64(rng.Intn(1000)), P: map[string]map[string]*principal{}, fees: map[string]uint64{}, valPub: map[string][]byte{}, byAddr: map[string]string{}}
 	params := fsm.DefaultParams()
 	params.Validator.MinimumOrderSize = minOrder
 	// distinct, non-zero fees so that a fee looked up under the wrong kind shows
